@@ -5,6 +5,7 @@
    with function values (`ops.Const(val.Function(body))`, possibly inside sum / tuple values).
 
    `resolve_extensions` replaces the `Custom` operations of the nodes of the HUGR it is called on and nothing else;
+   (the free choice of the description of a resolved operation is the oracle [keep] of model/Resolve.v);
    the HUGRs inside constants are part of the frame (they are in the model because the dump, the serialised
    document and the frame statement speak about them).  No proofs in this file. *)
 From Coq Require Import NArith List Bool Arith.
@@ -45,9 +46,9 @@ End Map.
    touched, whatever its value holds: the HUGR of a function value keeps its opaque operations (hugr-core's
    resolve_value_exts descends into them; hugr-py does not, and the property speaks of the operations of the HUGR
    being resolved only) ---- *)
-Definition resolve_hop (reg : registry) (o : hop) : hop :=
+Definition resolve_hop (reg : registry) (keep : descr_choice) (o : hop) : hop :=
   match o with
-  | HOp o => HOp (resolve_op reg o)                              (* isinstance(op, Custom): op.resolve(registry) *)
+  | HOp o => HOp (resolve_op reg keep o)                             (* isinstance(op, Custom): op.resolve(registry) *)
   | HConst _ => o
   | HOther _ _ _ _ => o
   end.
@@ -62,13 +63,14 @@ Definition set_op (h : hugrT) (i : nat) (o : hop) : hugrT :=
   | Some n => {| h_nodes := set_nth (h_nodes h) i (Some (with_op n o)); h_root := h_root h; h_links := h_links h |}
   | None => h
   end.
-Definition resolve_step (reg : registry) (h : hugrT) (i : nat) : hugrT :=
+Definition resolve_step (reg : registry) (keep : descr_choice) (h : hugrT) (i : nat) : hugrT :=
   match get_node h i with
-  | Some n => set_op h i (resolve_hop reg (n_op n))
+  | Some n => set_op h i (resolve_hop reg keep (n_op n))
   | None => h
   end.
 (* iteration is over the live indices in increasing order; assigning `op` fields does not change them *)
-Definition resolve_extensions (reg : registry) (h : hugrT) : hugrT := fold_left (resolve_step reg) (live h) h.
+Definition resolve_extensions (reg : registry) (keep : descr_choice) (h : hugrT) : hugrT :=
+  fold_left (resolve_step reg keep) (live h) h.
 
 (* ---- the serialised document ---- *)
 (* serial operations: an Extension operation is a [custom] over serial types (written OCustom, as in
